@@ -6,7 +6,7 @@ import spec
 from spec import hex_of
 
 OBLIGATION_MODULES = ["PyModeS.Properties.C09"]
-TIE_MODULES = ['PyModeS.Tie.Bds08', 'PyModeS.Tie.Bds05b', 'PyModeS.Tie.Adsb', 'PyModeS.Tie.C09Gen']
+TIE_MODULES = ['PyModeS.Tie.Bds08', 'PyModeS.Tie.Bds05b', 'PyModeS.Tie.Adsb', 'PyModeS.Tie.C09Gen', 'PyModeS.Tie.Bds09']
 MAIN_THEOREM = "PyModeS.C09.airborne_velocity_spec / surface_velocity_spec / altitude_diff_spec"
 RULE = ("TC19: subtype x signs x boundary component values^2 x vertical-rate values, random rest; altitude_diff all 128 x sign; "
         "surface: all 128 movement codes x status x 128 track codes; non-trivial = value (not None / guard) expected")
